@@ -158,6 +158,12 @@ class Gen:
                 self.pending = ch[1:]
                 self._touch(ch[0])
                 return ch[0]
+        if self.weights.get('connect', 0) and self.weights.get('disconnectfrom', 0) and self.r.random() < 0.02:
+            ch = self.chain_stale_proxy()
+            if ch:
+                self.pending = ch[1:]
+                self._touch(ch[0])
+                return ch[0]
         kinds = list(self.weights)
         for _ in range(30):
             k = self.r.choices(kinds, [self.weights[x] for x in kinds])[0]
@@ -207,6 +213,27 @@ class Gen:
                               ['reorderwire', str(w), str(len(pins))] +
                               [('O%d.%d' % (n, self.w.index[id(nip)]) if t[1:] == '%d.%d' % (n, self.w.index[id(ip)]) else t) for t in pins]])
         return [first, ['setref', str(n), str(d)], last]
+
+    def chain_stale_proxy(self):
+        """several steps on one outer pin through a proxy object the caller keeps: connect it to a wire through
+        the proxy, take it off through the stored pin, put it on another wire, then address the FIRST wire
+        through the kept proxy again (the world hands back the same proxy object) - whatever the earlier call
+        left inside the proxy must not matter"""
+        cands = []
+        for n in self.ids('instance'):
+            inst = self.w.objs[n]
+            for ip, op in inst._pins.items():
+                if op.wire is None and id(ip) in self.w.index:
+                    cands.append((n, self.w.index[id(ip)]))
+        wires = self.ids('wire')
+        if not cands or len(wires) < 2:
+            return None
+        n, i = self.r.choice(cands)
+        w1, w2 = self.r.sample(wires, 2)
+        O, S = 'O%d.%d' % (n, i), 'S%d.%d' % (n, i)
+        last = self.r.choice([['disconnectfrom', str(w1), '1', O], ['disconnect', str(w1), O],
+                              ['disconnectfrom', str(w2), '1', O], ['connect', str(w1), O, '~']])
+        return [['connect', str(w1), O, '~'], ['disconnect', str(w1), S], ['connect', str(w2), self.r.choice([S, S, O]), '~'], last]
 
     def g_new(self):
         n_net = len(self.ids('netlist'))
